@@ -193,6 +193,21 @@ CHECKS = {
         "runtime monitoring: audit-hook event log + before/after content snapshot oracle, failpoint enumeration over file-system events",
         "3/C19",
     ),
+    "C12": (
+        "exploration",
+        "Runtime monitor over repeated real `python -m ford` runs: for each generated multi-file project (equally named procedures, types, "
+        "interfaces, modules/submodules, files; generics with several procedures; extension; cross-file calls; markdown link/abbreviation/"
+        "footnote definitions in docs; pages; search; graphs embedded or in graph_dir; externalize; sort modes) one reference run is compared "
+        "byte for byte and path for path with runs that differ in exactly one factor: PYTHONHASHSEED, the directory enumeration order "
+        "(os.scandir/os.listdir results permuted inside the FORD process by an injected sitecustomize; every permutation for flat projects "
+        "of 3-4 files), parallel 0/2/8, and the prior content of the output directory (same project / another project with pages, graphs, "
+        "modules.json, media, stray files). A control variant (same settings, other location) guards the harness' attribution.",
+        "Each variant runs in its own copy of the project (regenerated from the seed); a difference in the control run makes the case "
+        "inconclusive, not a violation. creation_date off; `dot` assumed deterministic for identical input. A stale graph_dir outside the "
+        "output directory is not part of the property and not tested.",
+        "runtime monitoring: differential oracle over output trees of repeated runs with schedule injection (hash seed, directory order, workers, history)",
+        "3/C12",
+    ),
     "C14": (
         "exploration",
         "Runtime monitor (metamorphic) on the real fixed-to-free converter + reader + parser: each generated program is written "
